@@ -61,9 +61,14 @@ def payloads(rng, tier):
                 mask = [1 if f.valid(gen.kmer(v, k)) else 0 for v in range(4 ** k)]
             except ValueError:
                 mask = gen.random_mask(rng, k)
+            t = rng.choice([1, 1, 2, 2, 3, 4])
         else:
-            mask = gen.random_mask(rng, k)
-        yield "coding_graph", {"k": k, "mask": mask, "t": rng.choice([1, 1, 2, 2, 3, 4]), "dtype": rng.choice(["bool", "int"])}
+            # densities at which the trimming neither keeps everything nor removes everything (depends on the threshold)
+            t = rng.choice([1, 1, 2, 2, 3, 4])
+            dens = {1: [0.15, 0.25, 0.35, 0.5, 0.7], 2: [0.45, 0.55, 0.65, 0.75, 0.85], 3: [0.75, 0.85, 0.9, 0.95],
+                    4: [0.9, 0.97, 1.0]}[t]
+            mask = gen.random_mask(rng, k, rng.choice(dens + [rng.random()]))
+        yield "coding_graph", {"k": k, "mask": mask, "t": t, "dtype": rng.choice(["bool", "int"])}
     if tier == "thorough":
         for m in range(65536):
             mask = [(m >> i) & 1 for i in range(16)]
